@@ -41,6 +41,10 @@ pub struct RunResult {
     /// message i is delivered (i = number of delivered messages: at the end of the run). A consumer that drains slowly
     /// looks message j's lifecycle up at that later moment.
     pub revoked: Option<(usize, usize)>,
+    /// what a consumer ends up with that follows the table by refresh index the way the remote server does (at every
+    /// delivery and once more after the stage has returned: entries whose lcs_w_refresh_idx is above the last one seen)
+    /// None when the stage was run in several phases on one table: the refresh index restarts with every run of the stage
+    pub followed: Option<BTreeMap<LifecycleId, LcSnap>>,
     /// final table (by id)
     pub table: BTreeMap<LifecycleId, LcSnap>,
     /// listing (ids in listing order) or the panic
@@ -62,6 +66,21 @@ pub fn run_stage(phases: &[&[DltMessage]]) -> Result<RunResult, Panicked> {
     let delivered: RefCell<Vec<(DltMessage, Option<LcSnap>)>> = RefCell::new(Vec::new());
     let revoked: std::cell::Cell<Option<(usize, usize)>> = Default::default();
     let mut lw: Option<Lw> = Some(lcs_w);
+    let follower: RefCell<(u32, BTreeMap<LifecycleId, LcSnap>)> = RefCell::new((0, BTreeMap::new()));
+    let follow = || {
+        let mut f = follower.borrow_mut();
+        if let Some(rd) = lcs_r.read() {
+            let last = f.0;
+            for (id, b) in &rd {
+                if let Some(lc) = b.get_one() {
+                    if lc.lcs_w_refresh_idx > last {
+                        f.0 = f.0.max(lc.lcs_w_refresh_idx);
+                        f.1.insert(*id, snap(lc));
+                    }
+                }
+            }
+        }
+    };
     for ph in phases {
         let (tx, rx) = std::sync::mpsc::channel();
         for m in ph.iter() {
@@ -72,6 +91,7 @@ pub fn run_stage(phases: &[&[DltMessage]]) -> Result<RunResult, Panicked> {
         let r = catch(|| {
             parse_lifecycles_buffered_from_stream(w, rx, &|m: DltMessage| {
                 let look = lcs_r.get_one(&m.lifecycle).map(|g| snap(&g));
+                follow();
                 let mut d = delivered.borrow_mut();
                 if revoked.get().is_none() {
                     let i = d.len();
@@ -106,6 +126,7 @@ pub fn run_stage(phases: &[&[DltMessage]]) -> Result<RunResult, Panicked> {
             }
         }
     }
+    follow();
     let delivered = delivered.into_inner();
     if revoked.get().is_none() {
         if let Some(j) = delivered.iter().position(|(pm, pl)| pl.is_some() && !table.contains_key(&pm.lifecycle)) {
@@ -113,7 +134,8 @@ pub fn run_stage(phases: &[&[DltMessage]]) -> Result<RunResult, Panicked> {
         }
     }
     drop(lw);
-    Ok(RunResult { delivered, revoked: revoked.get(), table, listing })
+    let followed = if phases.len() == 1 { Some(follower.into_inner().1) } else { None };
+    Ok(RunResult { delivered, revoked: revoked.get(), followed, table, listing })
 }
 
 #[derive(Clone, Copy, PartialEq, Eq)]
@@ -303,6 +325,21 @@ pub fn judge(
                 ctx.violation("c_sum", "", case, format!("sum of nr_msgs {} != {} messages", sum, res.delivered.len()));
                 return true;
             }
+            // the table as a consumer knows it that follows it by refresh index (what the remote server sends to clients)
+            for l in listed.iter().filter(|_| res.followed.is_some()) {
+                match res.followed.as_ref().unwrap().get(&l.id) {
+                    None => {
+                        ctx.violation("h_followed_missing", "", case, format!("a consumer following the table by refresh index never saw lifecycle #{} (nr_msgs {})", canon[&l.id], l.nr_msgs));
+                        return true;
+                    }
+                    Some(f) => {
+                        if f.nr_msgs != l.nr_msgs || f.start != l.start || f.end != l.end {
+                            ctx.violation("h_followed_stale", "", case, format!("a consumer following the table by refresh index ends with lifecycle #{} as (nr_msgs {}, start {}, end {}), the table has ({}, {}, {})", canon[&l.id], f.nr_msgs, f.start, f.end, l.nr_msgs, l.start, l.end));
+                            return true;
+                        }
+                    }
+                }
+            }
             match &res.listing {
                 Err(p) => {
                     ctx.violation("d_listing_panic", &p.loc, case, p.msg.clone());
@@ -388,7 +425,7 @@ impl Prop for LcProp {
         let (id, what) = match self.0 {
             Which::C05 => ("C05", "every message forwarded once, in order, unchanged, with a non-zero lifecycle id of its own ECU; a panic of the stage counts as loss"),
             Which::C06 => ("C06", "at every call of the downstream sender a table lookup of the message's lifecycle id succeeds and names the message's ECU, and the entry of every message delivered earlier is still in the table (a slowly draining consumer looks it up then) (same-thread reader; cross-thread readers are covered by the scheduler engine under C13/C06-sched)"),
-            Which::C07 => ("C07", "final table vs delivered messages (referenced, counts, sum, no merged entry) and the listing (producible, each id once, resume after origin, start-time order without resumes)"),
+            Which::C07 => ("C07", "final table vs delivered messages (referenced, counts, sum, no merged entry), the table as known to a consumer that follows it by refresh index at every delivery and once at the end (the protocol of the remote server) equals the final table, and the listing (producible, each id once, resume after origin, start-time order without resumes)"),
         };
         Meta {
             id,
@@ -458,6 +495,33 @@ impl Prop for LcProp {
             ctx.end_family(done);
             if !done {
                 return;
+            }
+        }
+        // (1b2) software-version control responses (non-verbose, verbose, verbose with an empty / a missing version
+        // argument): the stage looks into their payload
+        {
+            let sa = sw_version_alphabet();
+            let sd = ctx.tier.pick(4, 5);
+            for d in 1..=sd {
+                ctx.begin_family("sw_version_responses", &format!("depth={d} sigma={} (normal, new boot, 4 shapes of GET_SOFTWARE_VERSION responses, second ECU) uptime0=20000ms", sa.len()));
+                let mut syms = vec![sa[0]; d];
+                let done = enumr::sequences(d, sa.len(), |ix| {
+                    if ctx.mine() {
+                        for (i, x) in ix.iter().enumerate() {
+                            syms[i] = sa[*x];
+                        }
+                        ctx.landmark("sw_version_response");
+                        run_case(ctx, which, "sw_version_responses", 20_000, &syms, None, 1);
+                        if ctx.sum.evaluations % 4096 == 0 && ctx.out_of_time() {
+                            return false;
+                        }
+                    }
+                    true
+                });
+                ctx.end_family(done);
+                if !done {
+                    return;
+                }
             }
         }
         // (1c) index gaps: the same sequences with message indices 100 001 (50 001) apart, so that a regular
